@@ -1086,8 +1086,14 @@ func (s *Server) RemoteSync(
 	}
 	s.Mach.Add1(ssS.MetricSync, nil)
 
+	// the same view of the clock as in RemoteHello: client-bound indexes when
+	// no schema is synced
+	mTime := s.Source.Time(nil)
+	if !s.syncSchema {
+		mTime = mTime.Filter(s.tracer.trackedStateIdxs)
+	}
 	*resp = MsgSrvSync{
-		Time:      s.Source.Time(nil),
+		Time:      mTime,
 		QueueTick: s.Source.QueueTick(),
 	}
 	s.log("RemoteSync: [%v]", resp.Time)
